@@ -16,52 +16,122 @@ import (
 
 type plantT struct {
 	op     string
+	kind   string // the KIND of element the plant targets (see fieldKind, msgKind, …): selection is stratified by op@kind
 	at     string
 	mutate func(c *wsT) []expT // applied to a clone; nil result = not applicable
 	cat    string              // a category (or rule id) that contains the planted rule in every version that has it
 }
 
+func (p plantT) stratum() string { return p.op + "@" + p.kind }
+
 // ---- walkers (pre-order, with descriptor source paths) ----
 
-func walkMsgs(ms []msgT, base string, tag int, prefix string, fn func(path, nested string, m *msgT)) {
-	for i := range ms {
-		p := pk(base, tag, i)
-		fn(p, prefix+ms[i].name, &ms[i])
-		walkMsgs(ms[i].msgs, p, 3, prefix+ms[i].name+".", fn)
+// msgCtx describes where a message sits: depth 0 = top level; group != nil = the body of a group field.
+type msgCtx struct {
+	depth int
+	group *fieldT
+}
+
+func walkMsg(p, nested string, m *msgT, ctx msgCtx, fn func(path, nested string, m *msgT, ctx msgCtx)) {
+	fn(p, nested, m, ctx)
+	for j, it := range m.nestedItems() {
+		if it.msg == nil {
+			continue // synthetic map entry: no location, nothing to plant
+		}
+		c := msgCtx{depth: ctx.depth + 1}
+		if it.field >= 0 {
+			c.group = &m.fields[it.field]
+		}
+		walkMsg(pk(p, 3, j), nested+"."+it.msg.name, it.msg, c, fn)
 	}
 }
 
-func (f *fileT) eachMsg(fn func(path, nested string, m *msgT)) { walkMsgs(f.msgs, "", 4, "", fn) }
-
-func (f *fileT) eachEnum(fn func(path, nested string, e *enumT)) {
-	for i := range f.enums {
-		fn(pk("5", i), f.enums[i].name, &f.enums[i])
+func (f *fileT) eachMsgCtx(fn func(path, nested string, m *msgT, ctx msgCtx)) {
+	for i := range f.msgs {
+		walkMsg(pk("4", i), f.msgs[i].name, &f.msgs[i], msgCtx{}, fn)
 	}
-	f.eachMsg(func(p, nested string, m *msgT) {
+}
+
+func (f *fileT) eachMsg(fn func(path, nested string, m *msgT)) {
+	f.eachMsgCtx(func(p, nested string, m *msgT, _ msgCtx) { fn(p, nested, m) })
+}
+
+func (f *fileT) eachEnumCtx(fn func(path, nested string, e *enumT, depth int)) {
+	for i := range f.enums {
+		fn(pk("5", i), f.enums[i].name, &f.enums[i], 0)
+	}
+	f.eachMsgCtx(func(p, nested string, m *msgT, ctx msgCtx) {
 		for i := range m.enums {
-			fn(pk(p, 4, i), nested+"."+m.enums[i].name, &m.enums[i])
+			fn(pk(p, 4, i), nested+"."+m.enums[i].name, &m.enums[i], ctx.depth+1)
 		}
 	})
 }
 
-func (f *fileT) eachField(fn func(path string, fl *fieldT, m *msgT, isExt bool)) {
-	f.eachMsg(func(p, _ string, m *msgT) {
+func (f *fileT) eachEnum(fn func(path, nested string, e *enumT)) {
+	f.eachEnumCtx(func(p, nested string, e *enumT, _ int) { fn(p, nested, e) })
+}
+
+// eachField visits what NewLintFieldRuleHandler visits and the harness can plant at: per message
+// (pre-order, group bodies included) its fields then its extensions, finally the file-level
+// extensions (m == nil).  depth is the nesting depth of m (-1 for file-level extensions).
+func (f *fileT) eachField(fn func(path string, fl *fieldT, m *msgT, isExt bool, depth int)) {
+	f.eachMsgCtx(func(p, _ string, m *msgT, ctx msgCtx) {
+		d := ctx.depth
+		if ctx.group != nil {
+			d = 100 + ctx.depth // fields of a group body
+		}
 		for i := range m.fields {
-			fn(pk(p, 2, i), &m.fields[i], m, false)
+			fn(pk(p, 2, i), &m.fields[i], m, false, d)
 		}
 		for i := range m.exts {
-			fn(pk(p, 6, i), &m.exts[i], m, true)
+			fn(pk(p, 6, i), &m.exts[i], m, true, d)
 		}
 	})
 	for i := range f.exts {
-		fn(pk("7", i), &f.exts[i], nil, true)
+		fn(pk("7", i), &f.exts[i], nil, true, -1)
 	}
+}
+
+// fieldKind names the kind of a field as the rule code can tell them apart (parent message nil /
+// map entry / group type / oneof membership / proto3 optional / extension) plus where it sits.
+func fieldKind(fl *fieldT, m *msgT, isExt bool, depth int, proto3 bool) string {
+	switch {
+	case isExt && m == nil:
+		return "file-ext"
+	case isExt:
+		return "nested-ext"
+	case fl.isGroup() && fl.oneof >= 0:
+		return "group-in-oneof"
+	case fl.isGroup():
+		return "group"
+	case fl.isMap():
+		return "map"
+	case depth >= 100:
+		return "in-group-body"
+	case fl.oneof >= 0:
+		return "oneof-member"
+	case proto3 && fl.label == "optional":
+		return "proto3-optional"
+	case depth >= 1:
+		return "nested-msg-field"
+	}
+	return "plain"
+}
+
+func depthKind(depth int) string {
+	switch {
+	case depth == 0:
+		return "top"
+	case depth == 1:
+		return "nested-1"
+	}
+	return "nested-2+"
 }
 
 func (w *wsT) eachRef(fn func(r *ref)) {
 	for _, f := range w.files {
-		f.eachField(func(_ string, fl *fieldT, _ *msgT, _ bool) {
-			if fl.scalar == "" {
+		f.eachField(func(_ string, fl *fieldT, _ *msgT, _ bool, _ int) {
+			if fl.scalar == "" && !fl.isGroup() {
 				fn(&fl.ref)
 			}
 		})
@@ -74,15 +144,27 @@ func (w *wsT) eachRef(fn func(r *ref)) {
 	}
 }
 
+func renamed(name, oldNested, newNested string) (string, bool) {
+	if name == oldNested {
+		return newNested, true
+	}
+	if strings.HasPrefix(name, oldNested+".") {
+		return newNested + name[len(oldNested):], true
+	}
+	return name, false
+}
+
 func (w *wsT) renameRefs(fi int, oldNested, newNested string) {
 	w.eachRef(func(r *ref) {
 		if r.file != fi {
 			return
 		}
-		if r.nested == oldNested {
-			r.nested = newNested
-		} else if strings.HasPrefix(r.nested, oldNested+".") {
-			r.nested = newNested + r.nested[len(oldNested):]
+		r.nested, _ = renamed(r.nested, oldNested, newNested)
+	})
+	// extension blocks that extend a message of this file
+	w.files[fi].eachField(func(_ string, fl *fieldT, _ *msgT, isExt bool, _ int) {
+		if isExt && fl.extOwn != "" {
+			fl.extOwn, _ = renamed(fl.extOwn, oldNested, newNested)
 		}
 	})
 }
@@ -97,6 +179,21 @@ func (w *wsT) usedByRPC(fi int, nested string) bool {
 				}
 			}
 		}
+	}
+	return used
+}
+
+// usedAsMapValue: protoc (and protodesc.NewFile, which buf lint runs on the image) reject a map
+// whose enum value type does not start with a zero value; protocompile lets it through and lint
+// then fails with a system error — an invalid schema, not a lint input.
+func (w *wsT) usedAsMapValue(fi int, nested string) bool {
+	used := false
+	for _, f := range w.files {
+		f.eachField(func(_ string, fl *fieldT, _ *msgT, _ bool, _ int) {
+			if fl.isMap() && fl.scalar == "" && fl.ref.file == fi && fl.ref.nested == nested {
+				used = true
+			}
+		})
 	}
 	return used
 }
@@ -179,6 +276,68 @@ func pkgCycles(c *wsT) []expT {
 	return exp
 }
 
+// rpcUniqueDoc lists, from the documentation of RPC_REQUEST_RESPONSE_UNIQUE and its three options
+// alone, the RPCs of the target files the rule must flag: an RPC whose request and response type
+// are the same (unless rpc_allow_same_request_response), and every RPC that uses a type another
+// RPC uses as well.  rpc_allow_google_protobuf_empty_requests exempts the uses of
+// google.protobuf.Empty as a REQUEST, rpc_allow_google_protobuf_empty_responses the uses as a
+// RESPONSE — each option its own side only.
+func rpcUniqueDoc(c *wsT, o lintOpts) []expT {
+	const empty = "google.protobuf.Empty"
+	type rpcAt struct {
+		file, path string
+		in, out    string
+	}
+	var rpcs []rpcAt
+	for _, f := range c.files {
+		if f.isImport {
+			continue
+		}
+		for si, s := range f.svcs {
+			for mi, m := range s.rpcs {
+				rpcs = append(rpcs, rpcAt{f.path, pk(pk("6", si), 2, mi), c.fullName(m.in), c.fullName(m.out)})
+			}
+		}
+	}
+	exemptIn := func(r rpcAt) bool { return r.in == empty && o.allowEmptyReq }
+	exemptOut := func(r rpcAt) bool { return r.out == empty && o.allowEmptyResp }
+	flag := map[int]bool{}
+	for i, r := range rpcs {
+		if r.in == r.out && !o.allowSame && !(exemptIn(r) && exemptOut(r)) {
+			flag[i] = true
+		}
+	}
+	users := map[string]map[int]bool{} // type -> RPCs with a non-exempt use of it
+	use := func(t string, i int) {
+		if users[t] == nil {
+			users[t] = map[int]bool{}
+		}
+		users[t][i] = true
+	}
+	for i, r := range rpcs {
+		if !exemptIn(r) {
+			use(r.in, i)
+		}
+		if !exemptOut(r) {
+			use(r.out, i)
+		}
+	}
+	for _, us := range users {
+		if len(us) > 1 {
+			for i := range us {
+				flag[i] = true
+			}
+		}
+	}
+	var exp []expT
+	for i, r := range rpcs {
+		if flag[i] {
+			exp = append(exp, expT{"RPC_REQUEST_RESPONSE_UNIQUE", r.file, r.path})
+		}
+	}
+	return exp
+}
+
 func targets(w *wsT) []int {
 	out := []int{}
 	for i, f := range w.files {
@@ -194,8 +353,9 @@ var badComments = [][]string{nil, {""}, {"buf:lint:ignore COMMENT_FIELD"}, {"", 
 // enumerate builds every plant of every operator on w.
 func enumeratePlants(w *wsT, o lintOpts, r *hx.Rand) []plantT {
 	var out []plantT
+	kind := "" // the kind of the element the following add calls target
 	add := func(op, at, cat string, mutate func(c *wsT) []expT) {
-		out = append(out, plantT{op: op, at: at, mutate: mutate, cat: cat})
+		out = append(out, plantT{op: op, kind: kind, at: at, mutate: mutate, cat: cat})
 	}
 	one := func(rule, file, path string) []expT { return []expT{{rule, file, path}} }
 	badIdx := 0
@@ -206,9 +366,13 @@ func enumeratePlants(w *wsT, o lintOpts, r *hx.Rand) []plantT {
 		f := w.files[fi]
 		proto3 := f.syntax == "proto3"
 
-		// ---- messages ----
-		f.eachMsg(func(p, nested string, m *msgT) {
+		// ---- messages (top-level, nested at every depth, group bodies) ----
+		f.eachMsgCtx(func(p, nested string, m *msgT, ctx msgCtx) {
 			p, nested, name := p, nested, m.name
+			kind = depthKind(ctx.depth)
+			if ctx.group != nil {
+				kind = "group-body"
+			}
 			get := func(c *wsT) *msgT {
 				var found *msgT
 				c.files[fi].eachMsg(func(q, _ string, mm *msgT) {
@@ -218,7 +382,26 @@ func enumeratePlants(w *wsT, o lintOpts, r *hx.Rand) []plantT {
 				})
 				return found
 			}
-			if !w.usedByRPC(fi, nested) {
+			// the field that declares the group (its name is the lower-cased group name)
+			groupField := func(c *wsT) *fieldT {
+				var found *fieldT
+				c.files[fi].eachMsgCtx(func(q, _ string, _ *msgT, cc msgCtx) {
+					if q == p {
+						found = cc.group
+					}
+				})
+				return found
+			}
+			switch {
+			case ctx.group != nil:
+				// a group name must start with a capital letter; `Name_x` leaves the field name
+				// `name_x` lower_snake_case, so the message name is the only violation
+				add("MESSAGE_PASCAL_CASE", f.path+":"+p, "BASIC", func(c *wsT) []expT {
+					get(c).name = name + "_x"
+					groupField(c).name = strings.ToLower(name + "_x")
+					return one("MESSAGE_PASCAL_CASE", f.path, p+".1")
+				})
+			case !w.usedByRPC(fi, nested):
 				for _, nn := range []string{lowerFirst(name), name + "_x", "_" + name} {
 					nn := nn
 					add("MESSAGE_PASCAL_CASE", f.path+":"+p, "BASIC", func(c *wsT) []expT {
@@ -235,6 +418,7 @@ func enumeratePlants(w *wsT, o lintOpts, r *hx.Rand) []plantT {
 			for oi := range m.oneofs {
 				oi := oi
 				op := pk(p, 8, oi)
+				kind = fmt.Sprintf("oneof%d-%s", min(oi, 1), depthKind(ctx.depth))
 				add("ONEOF_LOWER_SNAKE_CASE", f.path+":"+op, "BASIC", func(c *wsT) []expT {
 					get(c).oneofs[oi].name = camel(m.oneofs[oi].name)
 					return one("ONEOF_LOWER_SNAKE_CASE", f.path, op+".1")
@@ -246,17 +430,50 @@ func enumeratePlants(w *wsT, o lintOpts, r *hx.Rand) []plantT {
 			}
 		})
 
-		// ---- fields (message fields, oneof members, extensions in messages and files) ----
-		f.eachField(func(p string, fl *fieldT, m *msgT, isExt bool) {
+		// ---- fields: every kind that NewLintFieldRuleHandler visits (plain, nested-message field,
+		// oneof member, proto3 optional, map, group, group in a oneof, field of a group body,
+		// extension nested in a message, FILE-LEVEL extension whose parent message is nil) ----
+		f.eachField(func(p string, fl *fieldT, m *msgT, isExt bool, depth int) {
 			p, name := p, fl.name
+			kind = fieldKind(fl, m, isExt, depth, proto3)
 			get := func(c *wsT) *fieldT {
 				var found *fieldT
-				c.files[fi].eachField(func(q string, ff *fieldT, _ *msgT, _ bool) {
+				c.files[fi].eachField(func(q string, ff *fieldT, _ *msgT, _ bool, _ int) {
 					if q == p {
 						found = ff
 					}
 				})
 				return found
+			}
+			if fl.isGroup() {
+				// the field name is derived from the group name; the comment belongs to the message
+				bodyPath := ""
+				f.eachMsgCtx(func(q, _ string, _ *msgT, cc msgCtx) {
+					if cc.group == fl {
+						bodyPath = q
+					}
+				})
+				gname := fl.group.name
+				add("FIELD_LOWER_SNAKE_CASE/group", f.path+":"+p, "BASIC", func(c *wsT) []expT {
+					// `Name_`: neither `name_` is lower_snake_case nor `Name_` PascalCase
+					g := get(c)
+					g.group.name = gname + "_"
+					g.name = strings.ToLower(gname) + "_"
+					return []expT{{"FIELD_LOWER_SNAKE_CASE", f.path, p + ".1"}, {"MESSAGE_PASCAL_CASE", f.path, bodyPath + ".1"}}
+				})
+				add("FIELD_NO_DESCRIPTOR", f.path+":"+p, "MINIMAL|BASIC", func(c *wsT) []expT {
+					g := get(c)
+					g.group.name = "Descriptor"
+					g.name = "descriptor"
+					return one("FIELD_NO_DESCRIPTOR", f.path, p+".1")
+				})
+				if fl.label == "optional" {
+					add("FIELD_NOT_REQUIRED", f.path+":"+p, "BASIC", func(c *wsT) []expT {
+						get(c).label = "required"
+						return one("FIELD_NOT_REQUIRED", f.path, p+".1")
+					})
+				}
+				return
 			}
 			add("FIELD_LOWER_SNAKE_CASE", f.path+":"+p, "BASIC", func(c *wsT) []expT {
 				get(c).name = camel(name)
@@ -267,8 +484,12 @@ func enumeratePlants(w *wsT, o lintOpts, r *hx.Rand) []plantT {
 				return one("FIELD_LOWER_SNAKE_CASE", f.path, p+".1")
 			})
 			add("FIELD_NO_DESCRIPTOR", f.path+":"+p, "MINIMAL|BASIC", func(c *wsT) []expT {
-				get(c).name = "descriptor"
-				return one("FIELD_NO_DESCRIPTOR", f.path, p+".1")
+				get(c).name = hx.Pick(r, []string{"descriptor", "descriptor", "_descriptor", "descriptor__"})
+				exp := one("FIELD_NO_DESCRIPTOR", f.path, p+".1")
+				if get(c).name != "descriptor" {
+					exp = append(exp, expT{"FIELD_LOWER_SNAKE_CASE", f.path, p + ".1"})
+				}
+				return exp
 			})
 			add("COMMENT_FIELD", f.path+":"+p, "COMMENTS", func(c *wsT) []expT {
 				get(c).comment = pickBad()
@@ -283,8 +504,10 @@ func enumeratePlants(w *wsT, o lintOpts, r *hx.Rand) []plantT {
 		})
 
 		// ---- enums and values ----
-		f.eachEnum(func(p, nested string, e *enumT) {
+		f.eachEnumCtx(func(p, nested string, e *enumT, depth int) {
 			p, nested, name, upper := p, nested, e.name, e.upper
+			enumKind := "enum-" + depthKind(depth) // top = file level, nested-1 = in a top-level message, …
+			kind = enumKind
 			get := func(c *wsT) *enumT {
 				var found *enumT
 				c.files[fi].eachEnum(func(q, _ string, ee *enumT) {
@@ -317,7 +540,7 @@ func enumeratePlants(w *wsT, o lintOpts, r *hx.Rand) []plantT {
 				ee.values = append(ee.values, alias)
 				return one("ENUM_NO_ALLOW_ALIAS", f.path, p+".3.2")
 			})
-			if !proto3 && len(e.values) >= 2 {
+			if !proto3 && len(e.values) >= 2 && !w.usedAsMapValue(fi, nested) {
 				add("ENUM_FIRST_VALUE_ZERO", f.path+":"+p, "OTHER|BASIC", func(c *wsT) []expT {
 					ee := get(c)
 					ee.values[0], ee.values[1] = ee.values[1], ee.values[0]
@@ -328,6 +551,7 @@ func enumeratePlants(w *wsT, o lintOpts, r *hx.Rand) []plantT {
 				vi := vi
 				v := e.values[vi]
 				vp := pk(p, 2, vi)
+				kind = enumKind + map[bool]string{true: "-last-value", false: "-value"}[vi > 0 && vi == len(e.values)-1]
 				add("COMMENT_ENUM_VALUE", f.path+":"+vp, "COMMENTS", func(c *wsT) []expT {
 					get(c).values[vi].comment = pickBad()
 					return one("COMMENT_ENUM_VALUE", f.path, vp)
@@ -341,6 +565,23 @@ func enumeratePlants(w *wsT, o lintOpts, r *hx.Rand) []plantT {
 						get(c).values[vi].name = "ZZ" + o.zero()
 						return one("ENUM_VALUE_PREFIX", f.path, vp+".1")
 					})
+					if o.zeroSuffix != "" {
+						// a custom suffix is configured: the DEFAULT suffix is a violation now
+						add("ENUM_ZERO_VALUE_SUFFIX/default-suffix", f.path+":"+vp, "STANDARD", func(c *wsT) []expT {
+							get(c).values[vi].name = upper + "_UNSPECIFIED"
+							return one("ENUM_ZERO_VALUE_SUFFIX", f.path, vp+".1")
+						})
+					} else {
+						// no suffix configured: the suffixes of the other option sets are violations
+						add("ENUM_ZERO_VALUE_SUFFIX/other-suffix", f.path+":"+vp, "STANDARD", func(c *wsT) []expT {
+							get(c).values[vi].name = upper + hx.Pick(r, []string{"_NONE", "_ZERO", "_UNSPECIFIED_X", "_unspecified"})
+							exp := one("ENUM_ZERO_VALUE_SUFFIX", f.path, vp+".1")
+							if strings.HasSuffix(get(c).values[vi].name, "_unspecified") {
+								exp = append(exp, expT{"ENUM_VALUE_UPPER_SNAKE_CASE", f.path, vp + ".1"})
+							}
+							return exp
+						})
+					}
 				} else {
 					rest := strings.TrimPrefix(v.name, upper+"_")
 					add("ENUM_VALUE_PREFIX", f.path+":"+vp, "STANDARD", func(c *wsT) []expT {
@@ -360,6 +601,7 @@ func enumeratePlants(w *wsT, o lintOpts, r *hx.Rand) []plantT {
 			si := si
 			s := f.svcs[si]
 			sp := pk("6", si)
+			kind = fmt.Sprintf("service%d", min(si, 1))
 			add("SERVICE_PASCAL_CASE", f.path+":"+sp, "BASIC", func(c *wsT) []expT {
 				c.files[fi].svcs[si].name = lowerFirst(s.name)
 				return one("SERVICE_PASCAL_CASE", f.path, sp+".1")
@@ -368,24 +610,35 @@ func enumeratePlants(w *wsT, o lintOpts, r *hx.Rand) []plantT {
 				c.files[fi].svcs[si].comment = pickBad()
 				return one("COMMENT_SERVICE", f.path, sp)
 			})
-			add("SERVICE_SUFFIX", f.path+":"+sp, "STANDARD", func(c *wsT) []expT {
-				c.files[fi].svcs[si].name = strings.TrimSuffix(s.name, o.svc()) + "Svc"
-				exp := one("SERVICE_SUFFIX", f.path, sp+".1")
-				// request/response types named <Service><Rpc>Request no longer carry the service's name
-				for mi, m := range s.rpcs {
-					if m.in.file >= 0 && m.in.nested == s.name+m.name+"Request" {
-						exp = append(exp, expT{"RPC_REQUEST_STANDARD_NAME", f.path, pk(sp, 2, mi) + ".2"})
+			// a service without the configured suffix; request/response types named
+			// <Service><Rpc>Request no longer carry the service's name
+			svcSuffixPlant := func(op, newName string) {
+				add(op, f.path+":"+sp, "STANDARD", func(c *wsT) []expT {
+					c.files[fi].svcs[si].name = newName
+					exp := one("SERVICE_SUFFIX", f.path, sp+".1")
+					for mi, m := range s.rpcs {
+						if m.in.file >= 0 && m.in.nested == s.name+m.name+"Request" {
+							exp = append(exp, expT{"RPC_REQUEST_STANDARD_NAME", f.path, pk(sp, 2, mi) + ".2"})
+						}
+						if m.out.file >= 0 && m.out.nested == s.name+m.name+"Response" {
+							exp = append(exp, expT{"RPC_RESPONSE_STANDARD_NAME", f.path, pk(sp, 2, mi) + ".3"})
+						}
 					}
-					if m.out.file >= 0 && m.out.nested == s.name+m.name+"Response" {
-						exp = append(exp, expT{"RPC_RESPONSE_STANDARD_NAME", f.path, pk(sp, 2, mi) + ".3"})
-					}
-				}
-				return exp
-			})
+					return exp
+				})
+			}
+			svcSuffixPlant("SERVICE_SUFFIX", strings.TrimSuffix(s.name, o.svc())+"Svc")
+			if o.svcSuffix != "" {
+				// a custom suffix is configured: the DEFAULT suffix is a violation now
+				svcSuffixPlant("SERVICE_SUFFIX/default-suffix", strings.TrimSuffix(s.name, o.svc())+"Service")
+			} else {
+				svcSuffixPlant("SERVICE_SUFFIX/other-suffix", strings.TrimSuffix(s.name, o.svc())+hx.Pick(r, []string{"API", "Endpoint", "ServiceX", "service"}))
+			}
 			for mi := range s.rpcs {
 				mi := mi
 				m := s.rpcs[mi]
 				mp := pk(sp, 2, mi)
+				kind = fmt.Sprintf("service%d-rpc%d", min(si, 1), min(mi, 1))
 				add("RPC_PASCAL_CASE", f.path+":"+mp, "BASIC", func(c *wsT) []expT {
 					c.files[fi].svcs[si].rpcs[mi].name = lowerFirst(m.name)
 					return one("RPC_PASCAL_CASE", f.path, mp+".1")
@@ -436,6 +689,69 @@ func enumeratePlants(w *wsT, o lintOpts, r *hx.Rand) []plantT {
 						return exp
 					})
 				}
+				// google.protobuf.Empty where the configuration does not allow it: the two allow_*
+				// options are independent, each covers its own side only
+				emptyRef := ref{-1, "google.protobuf.Empty"}
+				useEmpty := func(c *wsT) {
+					for _, i := range c.files[fi].imports {
+						if i.file < 0 && i.wkt == "google/protobuf/empty.proto" {
+							return
+						}
+					}
+					c.files[fi].imports = append(c.files[fi].imports, impT{file: -1, wkt: "google/protobuf/empty.proto"})
+				}
+				optKind := fmt.Sprintf("/allow-req=%v,resp=%v,same=%v", o.allowEmptyReq, o.allowEmptyResp, o.allowSame)
+				savedKind := kind
+				kind = "rpc" + optKind
+				if !o.allowEmptyReq && m.in != emptyRef {
+					add("RPC_REQUEST_STANDARD_NAME/empty", f.path+":"+mp, "STANDARD", func(c *wsT) []expT {
+						c.files[fi].svcs[si].rpcs[mi].in = emptyRef
+						useEmpty(c)
+						return append(one("RPC_REQUEST_STANDARD_NAME", f.path, mp+".2"), rpcUniqueDoc(c, o)...)
+					})
+				}
+				if !o.allowEmptyResp && m.out != emptyRef {
+					add("RPC_RESPONSE_STANDARD_NAME/empty", f.path+":"+mp, "STANDARD", func(c *wsT) []expT {
+						c.files[fi].svcs[si].rpcs[mi].out = emptyRef
+						useEmpty(c)
+						return append(one("RPC_RESPONSE_STANDARD_NAME", f.path, mp+".3"), rpcUniqueDoc(c, o)...)
+					})
+				}
+				// two RPCs of the file with google.protobuf.Empty on the same side
+				for mj := range s.rpcs {
+					mj := mj
+					if mj <= mi {
+						continue
+					}
+					for _, side := range []string{"request", "response"} {
+						side := side
+						if (side == "request" && o.allowEmptyReq) || (side == "response" && o.allowEmptyResp) {
+							continue // allowed on that side: the generator's clean workspaces cover it
+						}
+						add("RPC_REQUEST_RESPONSE_UNIQUE/empty-"+side+"-twice", f.path+":"+mp, "STANDARD", func(c *wsT) []expT {
+							var exp []expT
+							for _, k := range []int{mi, mj} {
+								rp := &c.files[fi].svcs[si].rpcs[k]
+								kp := pk(sp, 2, k)
+								if side == "request" {
+									if rp.in != emptyRef && !o.allowEmptyReq {
+										exp = append(exp, expT{"RPC_REQUEST_STANDARD_NAME", f.path, kp + ".2"})
+									}
+									rp.in = emptyRef
+								} else {
+									if rp.out != emptyRef && !o.allowEmptyResp {
+										exp = append(exp, expT{"RPC_RESPONSE_STANDARD_NAME", f.path, kp + ".3"})
+									}
+									rp.out = emptyRef
+								}
+							}
+							useEmpty(c)
+							exp = append(exp, rpcUniqueDoc(c, o)...)
+							return exp // empty = the configuration allows it: not a plant
+						})
+					}
+				}
+				kind = savedKind
 				// reuse the request type of another RPC of the same file
 				for sj := range f.svcs {
 					for mj := range f.svcs[sj].rpcs {
@@ -458,6 +774,14 @@ func enumeratePlants(w *wsT, o lintOpts, r *hx.Rand) []plantT {
 		for ii := range f.imports {
 			ii := ii
 			ip := pk("3", ii)
+			switch {
+			case f.imports[ii].file < 0:
+				kind = "import-wkt"
+			case w.files[f.imports[ii].file].isImport:
+				kind = "import-dependency"
+			default:
+				kind = "import-workspace"
+			}
 			add("IMPORT_NO_PUBLIC", f.path+":"+ip, "MINIMAL|BASIC", func(c *wsT) []expT {
 				// protocompile attributes a symbol reachable both directly and through a public
 				// import to the public path and then calls the direct import unused; keep the
@@ -481,6 +805,7 @@ func enumeratePlants(w *wsT, o lintOpts, r *hx.Rand) []plantT {
 				return one("IMPORT_NO_WEAK", f.path, ip)
 			})
 		}
+		kind = "file-" + f.syntax
 		add("IMPORT_USED", f.path, "BASIC", func(c *wsT) []expT {
 			for _, i := range f.imports {
 				if i.file < 0 && i.wkt == "google/protobuf/timestamp.proto" {
@@ -581,6 +906,7 @@ func enumeratePlants(w *wsT, o lintOpts, r *hx.Rand) []plantT {
 	}
 
 	// ---- whole-package operators (package statement of every file of the package + its directory) ----
+	kind = "package"
 	seen := map[string]bool{}
 	for _, fi := range targets(w) {
 		pkg := w.files[fi].pkg
@@ -634,31 +960,59 @@ func catUse(cat string, v bufconfig.FileVersion) []string {
 	return []string{alts[len(alts)-1]}
 }
 
+// strataDone counts, over the whole run, how many plants of every stratum (operator @ element
+// kind) were executed: the per-workspace budget goes to the least covered strata first, so every
+// operator reaches every kind of element it applies to.
+var strataDone = map[string]int{}
+
+func selectPlants(plants []plantT, limit int, r *hx.Rand) []plantT {
+	if len(plants) <= limit {
+		for _, p := range plants {
+			strataDone[p.stratum()]++
+		}
+		return plants
+	}
+	hx.Shuffle(r, plants)
+	taken := make([]bool, len(plants))
+	var keep []plantT
+	take := func(i int) {
+		taken[i] = true
+		keep = append(keep, plants[i])
+		strataDone[plants[i].stratum()]++
+	}
+	// at least one plant of every operator in every workspace
+	seen := map[string]bool{}
+	for i, p := range plants {
+		if !seen[p.op] {
+			seen[p.op] = true
+			take(i)
+		}
+	}
+	// then the least covered stratum first (ties: shuffled order)
+	for len(keep) < limit {
+		best := -1
+		for i, p := range plants {
+			if !taken[i] && (best < 0 || strataDone[p.stratum()] < strataDone[plants[best].stratum()]) {
+				best = i
+			}
+		}
+		if best < 0 {
+			break
+		}
+		take(best)
+	}
+	return keep
+}
+
 func plantAll(run *hx.Run, l *linter, r *hx.Rand, w *wsT, o lintOpts, wi int, replay string) {
 	plants := enumeratePlants(w, o, r)
 	run.CountN("B:plants:enumerated", len(plants))
-	limit := run.N(70, 250)
-	if len(plants) > limit {
-		// keep at least one plant of every operator, fill up at random
-		hx.Shuffle(r, plants)
-		seen := map[string]bool{}
-		var keep, rest []plantT
-		for _, p := range plants {
-			if !seen[p.op] {
-				seen[p.op] = true
-				keep = append(keep, p)
-			} else {
-				rest = append(rest, p)
-			}
-		}
-		for len(keep) < limit && len(rest) > 0 {
-			keep = append(keep, rest[0])
-			rest = rest[1:]
-		}
-		plants = keep
+	for _, p := range plants {
+		run.CountN("B:stratum-available:"+p.stratum(), 1)
 	}
+	plants = selectPlants(plants, run.N(70, 250), r)
 	for pi, p := range plants {
-		what := fmt.Sprintf("workspace %d, plant %s at %s", wi, p.op, p.at)
+		what := fmt.Sprintf("workspace %d, plant %s at %s (%s)", wi, p.op, p.at, p.kind)
 		pw := w.clone()
 		expect := p.mutate(pw)
 		if expect == nil {
@@ -679,16 +1033,17 @@ func plantAll(run *hx.Run, l *linter, r *hx.Rand, w *wsT, o lintOpts, wi int, re
 			continue
 		}
 		run.Count("B:plant:" + p.op)
+		run.Count("B:stratum:" + p.stratum())
 		v := versions[(wi+pi)%3]
-		// PROTOVALIDATE (CEL set-up, ~65 ms per call) stays enabled on every fourth plant only
+		// PROTOVALIDATE (CEL set-up, ~65 ms per call) stays enabled on every eighth plant only
 		var except []string
-		if pi%4 != 0 && v != bufconfig.FileVersionV1Beta1 {
+		if pi%8 != 0 && v != bufconfig.FileVersionV1Beta1 {
 			except = []string{"PROTOVALIDATE"}
 		}
 		judge(run, l, pw, b, lintCfg{v, allUse(v), o, except}, what, expect, replay)
 		v2 := versions[(wi+pi+1)%3]
 		except = nil
-		if strings.Contains(p.cat, "STANDARD") && v2 != bufconfig.FileVersionV1Beta1 && pi%4 != 1 {
+		if strings.Contains(p.cat, "STANDARD") && v2 != bufconfig.FileVersionV1Beta1 && pi%8 != 1 {
 			except = []string{"PROTOVALIDATE"}
 		}
 		judge(run, l, pw, b, lintCfg{v2, catUse(p.cat, v2), o, except}, what, expect, replay)
